@@ -20,6 +20,32 @@ def AllStored (s0 t : State) : Prop :=
   ∀ i ∈ s0.registered, ∀ k, (s0.objs i).oid = some k → t.added.get k = none ∧
     ((s0.added.get k = some i ∨ (s0.objs i).status = .changed) → marked t k)
 
+/-- the cleanup (abort for a connection that has not voted, then tpc_abort) never invalidates a new object
+    that was stored already: it is disowned with its state -/
+theorem cleanup_createdKept {t : State} (hS : Str [] t) (hsp : t.sp = none) (v : Bool) {k j : Nat}
+    (hc : t.cache.get k = some j) (hcr : t.creating.has k = true) (h : NG j t) : NG j (cleanup v t) := by
+  unfold cleanup
+  cases v with
+  | true =>
+    simp only [if_true]
+    exact connTpcAbort_ng hS hsp (Or.inl (hS.cacheS k j hc)) (Or.inl hcr) h
+  | false =>
+    simp only [Bool.false_eq_true, if_false]
+    have ae := connAbort_effect hS hsp
+    have hY := connAbort_ng hS hsp hc hcr h
+    have hnone : ((connAbort t).objs j).oid = none := by
+      rcases ae.clean.2.oid j with h1 | h1
+      · exfalso
+        have hoid : ((connAbort t).objs j).oid = some k := by rw [h1]; exact hS.cacheS k j hc
+        have hkn := ae.clean.1.known j k hoid
+        simp only [List.not_mem_nil, or_false] at hkn
+        rcases hkn with h2 | h2
+        · rw [ae.uncached k hcr] at h2; cases h2
+        · have := (hS.addedS k j (ae.clean.2.added k j h2)).2
+          rw [hc] at this; cases this
+      · exact h1.1
+    exact connTpcAbort_ng ae.clean.1 ae.spNone (k := k) (Or.inr hnone) (Or.inr hnone) hY
+
 /-- what the cleanup after a failed commit (or an abort) achieved -/
 structure CleanupFacts (s0 t X : State) : Prop where
   prePoll : PrePoll X
@@ -29,6 +55,8 @@ structure CleanupFacts (s0 t X : State) : Prop where
   committedKept : ∀ k j, s0.cache.get k = some j → (X.objs j).oid = some k
   changedOut : ∀ j, (s0.objs j).status = .changed →
     (X.objs j).status = .ghost ∨ (X.objs j).oid = none
+  createdKept : ∀ k j, t.cache.get k = some j → t.creating.has k = true → (t.objs j).status ≠ .ghost →
+    (X.objs j).status ≠ .ghost
 
 /-- **After a failed commit the connection is at a transaction boundary again.**  `s0`: the state in
     which `_commit` started (after `tpc_begin`, or the boundary state when `tpc_begin` was not
@@ -154,6 +182,9 @@ theorem cleanup_prePoll {s0 t : State} (h0 : Inv11 s0) (hP : Prog s0 [] t)
             · rw [hcr] at hm; cases hm
         · cases hkn
   obtain ⟨e1, e2, e3, e4, e5, e6, e7, e8, e9, e10, e11⟩ := eff
+  have hck : ∀ k j, t.cache.get k = some j → t.creating.has k = true → (t.objs j).status ≠ .ghost →
+      ((cleanup v t).objs j).status ≠ .ghost :=
+    fun k j hc hcr hg => cleanup_createdKept hS hsp v hc hcr hg
   generalize cleanup v t = X at *
   -- objects of the committed database are not touched by `_creating`/`_added`
   have hcommitted : ∀ k j, s0.cache.get k = some j →
@@ -206,7 +237,7 @@ theorem cleanup_prePoll {s0 t : State} (h0 : Inv11 s0) (hP : Prog s0 [] t)
     have hreg := h0.changedReg j h0s
     obtain ⟨k, hk0⟩ := Option.ne_none_iff_exists'.1 (h0.regOid j hreg)
     exact e10 j (by rw [cx7]; exact hreg) k (hP.oidKeep j k hk0) h0s hk0
-  refine ⟨?_, hcl, hshared, hcached, hkept, hchanged⟩
+  refine ⟨?_, hcl, hshared, hcached, hkept, hchanged, hck⟩
   refine ⟨hcl.1, e1, ?_, e2, e3, ?_, e11, ?_, ?_, ?_, ?_, ?_⟩
   · rw [e4, cx8]; exact h0.spsNil
   · exact Map.eq_nil_of_get_none _ e9
